@@ -481,6 +481,8 @@ theorem Inv.step {c : Cfg} {s0 s : St} (ok : CfgOK c s0) (hv : c.volatile = true
     Inv c s0 (step c s e) := by
   cases e with
   | nodeDone n => exact i.nodeDone n
+  | nodeFailed n => exact i
+  | nodeReset n => exact i
   | removeEmpty => exact i.removeEmpty ok
   | cacheMap => exact i.cacheMap
   | early upto =>
